@@ -29,6 +29,8 @@ enum Sc {
     /// the helper functions instructions are written with (`HasStack::{not_full, with_push, with_replace}`,
     /// `PushOnto::{push_onto, replace_on}`, `StackPush::with_stack_push`, `StackDiscard::with_stack_discard`),
     /// called directly at the boundary states: they are how "the state handed back with the error" is produced
+    /// a printing instruction on a user-defined state whose output refuses data beyond `room` bytes
+    Custom { instr: u8, ints: usize, bools: usize, room: usize, value_seed: u64 },
     Helper {
         helper: u8,
         on_bool: bool,
@@ -37,6 +39,121 @@ enum Sc {
         slack: [usize; 4],
         value_seed: u64,
     },
+}
+
+// ---------------------------------------------------------------------------
+// a user-defined state type whose output can REFUSE data: the printing instructions are generic over the state
+// (`HasStack<T> + HasStdout`), and `PushState`'s in-memory buffer never fails. Today a refused write panics (an
+// `unwrap` the source marks as to-be-removed); whatever an implementation does instead, an instruction that hands
+// back an ERROR must hand back the stacks it was given.
+
+#[derive(Clone, Debug, PartialEq)]
+struct Refusing {
+    room: usize,
+    data: Vec<u8>,
+}
+
+impl std::io::Write for Refusing {
+    fn write(&mut self, buf: &[u8]) -> std::io::Result<usize> {
+        // all or nothing per call
+        if buf.len() > self.room {
+            return Err(std::io::Error::new(std::io::ErrorKind::WriteZero, "output is full"));
+        }
+        self.room -= buf.len();
+        self.data.extend_from_slice(buf);
+        Ok(buf.len())
+    }
+
+    fn flush(&mut self) -> std::io::Result<()> {
+        Ok(())
+    }
+}
+
+#[derive(Clone, Debug, PartialEq)]
+struct TinyState {
+    int: push::push_vm::stack::Stack<i64>,
+    bool: push::push_vm::stack::Stack<bool>,
+    out: Refusing,
+}
+
+impl push::push_vm::stack::HasStack<i64> for TinyState {
+    fn stack<U: push::push_vm::stack::TypeEq<This = i64>>(&self) -> &push::push_vm::stack::Stack<i64> {
+        &self.int
+    }
+
+    fn stack_mut<U: push::push_vm::stack::TypeEq<This = i64>>(&mut self) -> &mut push::push_vm::stack::Stack<i64> {
+        &mut self.int
+    }
+}
+
+impl push::push_vm::stack::HasStack<bool> for TinyState {
+    fn stack<U: push::push_vm::stack::TypeEq<This = bool>>(&self) -> &push::push_vm::stack::Stack<bool> {
+        &self.bool
+    }
+
+    fn stack_mut<U: push::push_vm::stack::TypeEq<This = bool>>(&mut self) -> &mut push::push_vm::stack::Stack<bool> {
+        &mut self.bool
+    }
+}
+
+impl push::push_vm::push_io::HasStdout for TinyState {
+    type Stdout = Refusing;
+
+    fn stdout(&mut self) -> &mut Refusing {
+        &mut self.out
+    }
+}
+
+const CUSTOM_INSTRS: usize = 6;
+const CUSTOM_CELLS: usize = CUSTOM_INSTRS * 4 * 3 * 8;
+
+fn exec_custom(instr: u8, ints: usize, bools: usize, room: usize, value_seed: u64, obs: &mut Obs) -> Vec<Violation> {
+    use push::instruction::printing::{Print, PrintChar, PrintLn, PrintString};
+    let mut g = Xo::from_seed(value_seed);
+    let mut st = TinyState { int: push::push_vm::stack::Stack::default(), bool: push::push_vm::stack::Stack::default(), out: Refusing { room, data: Vec::new() } };
+    for _ in 0..ints {
+        let _ = st.int.push(gen_i64(&mut g));
+    }
+    for _ in 0..bools {
+        let _ = st.bool.push(g.coin());
+    }
+    let pre = st.clone();
+    let name = ["Print<i64>", "PrintLn<i64>", "Print<bool>", "PrintLn<bool>", "PrintChar<'x'>", "PrintString"][instr as usize % CUSTOM_INSTRS];
+    type R = push::error::InstructionResult<TinyState, push::instruction::instruction_error::PushInstructionError>;
+    let r: Result<R, _> = catch(move || match instr as usize % CUSTOM_INSTRS {
+        0 => Print::<i64>::new().perform(st),
+        1 => PrintLn::<i64>::new().perform(st),
+        2 => Print::<bool>::new().perform(st),
+        3 => PrintLn::<bool>::new().perform(st),
+        4 => PrintChar::<'x'>.perform(st),
+        _ => PrintString("hello".to_string()).perform(st),
+    });
+    obs.count("steps", 1);
+    obs.hit("probe.user-defined-state-with-refusing-output");
+    let mut out = Vec::new();
+    match r {
+        Err(_) => obs.hit("probe.refused-write-panics(today's-behaviour)"),
+        Ok(Ok(_)) => {}
+        Ok(Err(e)) => {
+            obs.hit("fault.custom-state-instruction-failed");
+            obs.nontrivial(mix(fnv1a(name.as_bytes()), (ints * 64 + bools * 8 + room) as u64));
+            if e.state().int != pre.int || e.state().bool != pre.bool {
+                out.push(Violation::new(
+                    "error-state-unchanged",
+                    format!("error-state:custom-state:{name}"),
+                    format!(
+                        "{name} on a user-defined state (output with room for {room} bytes) failed ({}), but the stacks handed back differ: before int {:?} bool {:?} | carried int {:?} bool {:?}",
+                        e.error(),
+                        pre.int,
+                        pre.bool,
+                        e.state().int,
+                        e.state().bool
+                    ),
+                ));
+            }
+        }
+    }
+    out
 }
 
 const HELPERS: usize = 8;
@@ -349,6 +466,7 @@ impl Check for C02 {
             "fault.grid-fatal-failure",
             "fault.grid-recoverable-failure",
             "fault.helper-failure",
+            "probe.user-defined-state-with-refusing-output",
             "probe.helper-calls",
         ]
     }
@@ -380,6 +498,10 @@ impl Check for C02 {
         let grid = self.grid_runs(tier);
         if run < grid {
             grid_cell(&self.variants, (run % self.cells()) as usize, g.next_u64())
+        } else if run < grid + HELPER_RUNS && (run - grid) < (4 * CUSTOM_CELLS) as u64 {
+            // (the first helper runs are given to the user-defined state: 4 value draws per cell)
+            let c = ((run - grid) as usize) % CUSTOM_CELLS;
+            Sc::Custom { instr: (c % CUSTOM_INSTRS) as u8, ints: (c / CUSTOM_INSTRS) % 4, bools: (c / CUSTOM_INSTRS / 4) % 3, room: c / CUSTOM_INSTRS / 12, value_seed: g.next_u64() }
         } else if run < grid + HELPER_RUNS {
             helper_cell((run - grid) as usize, g)
         } else if run < grid + HELPER_RUNS + vmgen::operand_cells() as u64 {
@@ -411,6 +533,7 @@ impl Check for C02 {
                 obs.hit("grid-cells");
                 exec_grid(prog, *sizes, *slack, *value_seed, obs)
             }
+            Sc::Custom { instr, ints, bools, room, value_seed } => exec_custom(*instr, *ints, *bools, *room, *value_seed, obs),
             Sc::Helper { helper, on_bool, n, sizes, slack, value_seed } => {
                 let mut g = Xo::from_seed(*value_seed);
                 let Some(state) = grid_state(*sizes, *slack, &mut g) else { return Vec::new() };
@@ -434,7 +557,7 @@ impl Check for C02 {
 
     fn shrink(&self, sc: &Sc) -> Vec<Sc> {
         match sc {
-            Sc::Grid { .. } | Sc::Helper { .. } => Vec::new(),
+            Sc::Grid { .. } | Sc::Helper { .. } | Sc::Custom { .. } => Vec::new(),
             Sc::Flight(v) => vmgen::shrink(v).into_iter().map(Sc::Flight).collect(),
         }
     }
